@@ -140,6 +140,13 @@ func (c *c06ctx) uncompressed(xb []byte) {
 	if y == nil {
 		xr = new(big.Int).Mod(xi, bigP)
 		yr = refDecode(xr)
+		if yr == nil {
+			// x is not an accepted compressed encoding; if it is nevertheless the abscissa of a curve point (one
+			// outside the subgroup), the untrusted decoder is offered that point's real ordinates as well
+			if pt, ok := ref.CurvePointWithX(xr, true); ok {
+				yr = pt.Y
+			}
+		}
 	}
 	var ys []*big.Int
 	if yr != nil {
@@ -183,7 +190,7 @@ func (c *c06ctx) uncompressed(xb []byte) {
 func init() {
 	core.Register(&core.Check{
 		ID: "C06", Level: "exploration",
-		Rule: "compressed form through SetBytes and ReadPoint: ALL x in [0,2^18) (2^22 thorough), all x in [p-2^12,p+2^12] and [2^256-2^12,2^256), the images x+p, x+2p and p-x of accepted x, the 16+16 pinned vectors, every length 0..70 around valid encodings; a quarter of the inputs first go through the unchecked decoders (history independence); uncompressed untrusted form: every accepted x (and its x+p alias) combined with y in {largest root, smaller root, root+p, y+1, 0, 1, p, p-1}; a case = (decoder, byte string); non-trivial = accepted by the reference, or an alias/boundary/wrong-length/wrong-y variant of an accepted encoding",
+		Rule: "compressed form through SetBytes and ReadPoint: ALL x in [0,2^18) (2^22 thorough), all x in [p-2^12,p+2^12] and [2^256-2^12,2^256), the images x+p, x+2p and p-x of accepted x, the 16+16 pinned vectors, every length 0..70 around valid encodings; a quarter of the inputs first go through the unchecked decoders (history independence); uncompressed untrusted form: every accepted x (and its x+p alias) and every x on the curve outside the subgroup combined with y in {largest root, smaller root, root+p, y+1, 0, 1, p, p-1}; a case = (decoder, byte string); non-trivial = accepted by the reference, or an alias/boundary/wrong-length/wrong-y variant of an accepted encoding",
 		Assume: []string{"reference predicate: math/big (x<p, Jacobi of (ax^2-1)/(dx^2-1) >= 0, Jacobi(1-ax^2)=+1, y = largest root), itself bound to 16 good and 16 bad-subgroup pinned vectors",
 			"order | r verified with the reference scalar multiplication on a subset of the accepted inputs (40 per unit)"},
 		Units: c06Units,
@@ -205,7 +212,7 @@ func c06Units(ctx *core.Ctx) []core.Unit {
 		us = append(us, core.Unit{Name: fmt.Sprintf("x range shard %d/%d", sh, shards), Run: func(ctx *core.Ctx, r *core.Result) {
 			needRef()
 			c := &c06ctx{r: r}
-			nacc := 0
+			nacc, nsub := 0, 0
 			for x := sh; x < lim; x += shards {
 				xb := be32(bi(x))
 				c.unsafeFirst = (x/shards)%4 == 3 // every fourth input is first seen by the unchecked decoder
@@ -226,6 +233,14 @@ func c06Units(ctx *core.Ctx) []core.Unit {
 					}
 					if nacc == 1 {
 						r.Sample(map[string]interface{}{"accepted_x": hx(xb), "also_tried": "x+p, x+2p, p-x, uncompressed with 9 y variants"})
+					}
+				} else if _, on := ref.CurvePointWithX(bi(x), true); on {
+					// rejected as compressed form but on the curve: wrong subgroup — through the uncompressed decoder
+					// with the point's true ordinates
+					nsub++
+					if nsub%8 == 1 || ctx.Thorough() {
+						c.uncompressed(xb)
+						r.Nontrivial++
 					}
 				}
 			}
